@@ -7,6 +7,7 @@ import (
 	"io"
 	"os"
 	"path/filepath"
+	"runtime"
 	"runtime/pprof"
 	"sort"
 	"strings"
@@ -414,12 +415,13 @@ func phase1Service(list []string) {
 // P2 / P3: byte-level faults
 
 type blog struct {
-	syms  string
-	rot   []int
-	seq   []item // written items only
-	label string
-	files [][]byte
-	lines []lineRef // per written item: file, offset
+	syms   string
+	stream bool // also run the in-memory stream representation (identical for all layouts of a log: once per log)
+	rot    []int
+	seq    []item // written items only
+	label  string
+	files  [][]byte
+	lines  []lineRef // per written item: file, offset
 }
 
 type lineRef struct{ file, off int }
@@ -454,7 +456,9 @@ func byteLogs() []blog {
 		pairs = allSeqs("VPBTRXM", 2)
 	}
 	for _, s := range pairs {
-		out = append(out, mkBlog(s, 0, make([]int, len(s))))
+		b := mkBlog(s, 0, make([]int, len(s)))
+		b.stream = true
+		out = append(out, b)
 		if len(s) == 2 {
 			out = append(out, mkBlog(s, 0, []int{1, 0}))
 		}
@@ -462,11 +466,15 @@ func byteLogs() []blog {
 	// long logs: lines straddling the 4096-byte bufio buffers of the GroupReader and of the WALReader
 	long := "MVPBBTMRXVBM"
 	if r.Thorough() {
-		out = append(out, mkBlog(long, 0, make([]int, len(long))))
+		b := mkBlog(long, 0, make([]int, len(long)))
+		b.stream = true
+		out = append(out, b)
 	}
 	rot := make([]int, len(long))
 	rot[3], rot[6], rot[8] = 1, 1, 2
-	out = append(out, mkBlog(long, 0, rot))
+	lb := mkBlog(long, 0, rot)
+	lb.stream = !r.Thorough()
+	out = append(out, lb)
 	return out
 }
 
@@ -585,21 +593,32 @@ func phase2(logs []blog) {
 		kept = append(kept, nil)
 		stream := b.concat()
 		putFiles(d, kept, 0)
-		hp := filepath.Join(d, "wal")
+		// One group per job: a group reader opens the files by path on every read, so growing the head byte by byte
+		// under an open group reads exactly like a freshly opened group (truncOne, used by replay, opens a new one).
+		w := openWAL(d, 0)
+		defer closeWAL(w)
+		hf, err := os.OpenFile(filepath.Join(d, "wal"), os.O_WRONLY|os.O_APPEND, 0o600)
+		if err != nil {
+			r.HarnessError("open head: %v", err)
+		}
+		defer hf.Close()
 		for o := 0; o <= len(b.files[j]); o++ {
 			if o%256 == 0 && expired() {
 				return
 			}
 			k := before + o
-			if err := os.WriteFile(hp, b.files[j][:o], 0o600); err != nil {
-				r.HarnessError("write: %v", err)
+			if o > 0 {
+				if _, err := hf.Write(b.files[j][o-1 : o]); err != nil {
+					r.HarnessError("write: %v", err)
+				}
 			}
-			w := openWAL(d, 0)
 			rd := readGroup(w, false, len(b.seq)+4)
-			closeWAL(w)
 			checkTrunc(b, "files", k, rd)
-			checkTrunc(b, "stream", k, readStream(stream[:k], false, len(b.seq)+4))
-			r.EvalN(2)
+			r.Eval()
+			if b.stream {
+				checkTrunc(b, "stream", k, readStream(stream[:k], false, len(b.seq)+4))
+				r.Eval()
+			}
 			// distinct fault = (line kind, previous line kind, byte offset inside the line)
 			lo, _ := b.completeLines(k)
 			if lo < len(b.seq) {
@@ -790,7 +809,6 @@ func phase3(logs []blog) {
 		d := <-dirPool
 		defer func() { dirPool <- d }()
 		ref := b.lines[c]
-		mod := append([]byte(nil), b.files[ref.file]...)
 		stream := b.concat()
 		spos := 0
 		for x := 0; x < ref.file; x++ {
@@ -802,6 +820,13 @@ func phase3(logs []blog) {
 		if ref.file < len(b.files)-1 {
 			hp = fmt.Sprintf("%s.%03d", hp, ref.file)
 		}
+		w := openWAL(d, 0) // one group per job, a new group reader per variant (see phase2)
+		defer closeWAL(w)
+		hf, err := os.OpenFile(hp, os.O_WRONLY, 0o600)
+		if err != nil {
+			r.HarnessError("open: %v", err)
+		}
+		defer hf.Close()
 		line := b.seq[c].line
 		// quick: real files for the small line kinds in one layout per log (rotated one for pairs); every line
 		// also goes through the same decoder on the in-memory stream
@@ -815,18 +840,15 @@ func phase3(logs []blog) {
 				if !onFiles {
 					break
 				}
-				mod[ref.off+off] = v
-				if err := os.WriteFile(hp, mod, 0o600); err != nil {
+				if _, err := hf.WriteAt([]byte{v}, int64(ref.off+off)); err != nil {
 					r.HarnessError("write: %v", err)
 				}
-				w := openWAL(d, 0)
 				rd := readGroup(w, true, len(b.seq)+8)
-				closeWAL(w)
 				checkSubst(b, "files", c, off, v, rd)
 				r.Eval()
 				r.Distinct(fmt.Sprintf("P3:%s+%d=%02x", b.seq[c].label[:1], off, v))
 			}
-			{
+			if b.stream {
 				for _, v := range substValues(orig, r.Thorough()) {
 					stream[spos+off] = v
 					checkSubst(b, "stream", c, off, v, readStream(stream, true, len(b.seq)+8))
@@ -835,7 +857,11 @@ func phase3(logs []blog) {
 				}
 				stream[spos+off] = orig
 			}
-			mod[ref.off+off] = orig
+			if onFiles {
+				if _, err := hf.WriteAt([]byte{orig}, int64(ref.off+off)); err != nil {
+					r.HarnessError("write: %v", err)
+				}
+			}
 		}
 	})
 }
@@ -1104,6 +1130,10 @@ func replay(path string) {
 
 func main() {
 	r = vk.New("fault_enumeration")
+	if os.Getenv("C38_BLOCKPROF") != "" {
+		runtime.SetBlockProfileRate(1000)
+		runtime.SetMutexProfileFraction(10)
+	}
 	if pf := os.Getenv("C38_PPROF"); pf != "" {
 		f, _ := os.Create(pf)
 		pprof.StartCPUProfile(f)
@@ -1123,18 +1153,18 @@ func main() {
 	run := func(p string) bool { return only == "" || strings.Contains(only, p) }
 	logs := byteLogs()
 	if run("4") {
-		setPhaseShare(0.25)
+		setPhaseShare(0.40)
 		phase4()
 		fmt.Printf("P4 done at %.1fs evals=%d\n", time.Since(runStart).Seconds(), r.Evals())
 	}
 	if run("1") {
-		setPhaseShare(0.40)
+		setPhaseShare(0.55)
 		phase1Service([]string{"V", "VTM", "PBMRVMT", "MMV"})
 		phase1()
 		fmt.Printf("P1 done at %.1fs evals=%d\n", time.Since(runStart).Seconds(), r.Evals())
 	}
 	if run("2") {
-		setPhaseShare(0.65)
+		setPhaseShare(0.75)
 		phase2(logs)
 		fmt.Printf("P2 done at %.1fs evals=%d\n", time.Since(runStart).Seconds(), r.Evals())
 	}
@@ -1145,6 +1175,14 @@ func main() {
 	}
 	os.RemoveAll(workDir + "/run")
 	pprof.StopCPUProfile()
+	if bp := os.Getenv("C38_BLOCKPROF"); bp != "" {
+		f, _ := os.Create(bp)
+		pprof.Lookup("block").WriteTo(f, 0)
+		f.Close()
+		f, _ = os.Create(bp + ".mutex")
+		pprof.Lookup("mutex").WriteTo(f, 0)
+		f.Close()
+	}
 
 	report()
 	r.Assumptions = []string{
